@@ -14,10 +14,10 @@ Local Open Scope R_scope.
 (** ** rotate (corecel/math/ArrayUtils.hh).  [rotate] is Base/Vec3.v's model of
     the current source; [rotate_old] / [rotate_new] (C20/RotateVariants.v) are
     the code as pinned and the repaired code. *)
-Theorem C20_rotate_model_is_pinned_code : forall min_acc (d rot : vec3 R),
-  rotate min_acc d rot = rotate_old min_acc d rot.
+Theorem C20_rotate_model_is_repaired_code : forall min_acc (d rot : vec3 R),
+  rotate min_acc d rot = rotate_new min_acc d rot.
 Proof. exact rotate_base_eq. Qed.
-Print Assumptions C20_rotate_model_is_pinned_code.
+Print Assumptions C20_rotate_model_is_repaired_code.
 
 Theorem C20_rotate_unit : forall min_acc (d rot : vec3 R),
   0 < min_acc -> dot rot rot = 1 -> dot d d = 1 ->
